@@ -139,6 +139,29 @@ GrantCreate(p, f) ==
     /\ Cmd([op |-> "grant", p |-> p, call |-> "Create", fault |-> f])
     /\ UNCHANGED <<kind, cancelled, calls, done, cancels, lateCall>>
 
+\* the caller's context ends WHILE its Create is in the store (past the store's own look at the context): the request is
+\* served like any other; a caller whose record was created holds the lock - the library does not look at the context again
+\* before it returns - and every other outcome finds the context done at its next step
+GrantCreateMid(p) ==
+    /\ pc[p] \in {"atCreate", "atCreateT"} /\ "midcancel" \in FaultKinds
+    /\ kind[p] \in {"ctx", "try"} /\ ~cancelled[p] /\ cancels < MaxCancels
+    /\ cancelled' = [cancelled EXCEPT ![p] = TRUE] /\ cancels' = cancels + 1
+    /\ LET try == pc[p] = "atCreateT"
+           creates == rec = None
+       IN /\ rec' = IF creates THEN [ver |-> nextVer, owner |-> p] ELSE rec
+          /\ nextVer' = IF creates THEN nextVer + 1 ELSE nextVer
+          /\ IF creates
+             THEN /\ hold' = [hold EXCEPT ![p] = TRUE]
+                  /\ pc' = [pc EXCEPT ![p] = "holding"]
+                  /\ UNCHANGED <<tok, cntr, myver>>
+             ELSE IF ~try
+             THEN /\ myver' = [myver EXCEPT ![p] = rec.ver]
+                  /\ pc' = [pc EXCEPT ![p] = "atWait"]
+                  /\ UNCHANGED <<tok, cntr, hold>>
+             ELSE /\ Release(p, "err") /\ UNCHANGED myver
+    /\ Cmd([op |-> "grant", p |-> p, call |-> "Create", fault |-> "midcancel"])
+    /\ UNCHANGED <<kind, calls, done, faults, lateCall>>
+
 GrantWait(p, f) ==
     /\ pc[p] = "atWait" /\ FaultOK(f) /\ CountFault(f)
     /\ pc' = [pc EXCEPT ![p] = IF f = "none" THEN "inWait" ELSE "precreate"]   \* an error from the wait is ignored
@@ -193,10 +216,11 @@ Expire ==
     /\ UNCHANGED <<pc, kind, cancelled, calls, myver, hold, tok, cntr, nextVer, done, faults, cancels, lateCall>>
 
 Internal(p) == TokCtxDone(p) \/ TokClosed(p) \/ TakeToken(p) \/ TryNoToken(p) \/ PreCreate(p) \/ WaitReturn(p)
-Faults == {"none"} \cup FaultKinds
+Faults == {"none"} \cup (FaultKinds \ {"midcancel"})
 Next == \/ \E p \in Procs : Internal(p)
         \/ \E p \in Procs, k \in Kinds : Start(p, k)
         \/ \E p \in Procs, f \in Faults : GrantCreate(p, f) \/ GrantWait(p, f) \/ GrantDelete(p, f)
+        \/ \E p \in Procs : GrantCreateMid(p)
         \/ \E p \in Procs : Unlock(p) \/ Cancel(p)
         \/ \E pr \in Provs : Shutdown(pr)
         \/ Expire
